@@ -93,11 +93,13 @@ func (pq *priorityQueue) Peek() *PriorityQueueItem {
 func (pq *priorityQueue) Reverse() PriorityQueue {
     switch pq.queue.(type) {
     case *minPriorityQueue:
-        queue := maxPriorityQueue(*pq.queue.(*minPriorityQueue))
+        queue := make(maxPriorityQueue, pq.Len())
+        copy(queue, *pq.queue.(*minPriorityQueue))
 
         return initializePriorityQueue(&queue)
     case *maxPriorityQueue:
-        queue := minPriorityQueue(*pq.queue.(*maxPriorityQueue))
+        queue := make(minPriorityQueue, pq.Len())
+        copy(queue, *pq.queue.(*maxPriorityQueue))
 
         return initializePriorityQueue(&queue)
     default:
